@@ -904,6 +904,7 @@ func propC09(c *Check) {
 	ruleR09_4(c)
 	ruleR09_5(c)
 	ruleR08_7(c)
+	ruleR09_8(c)
 }
 
 // ---- C10 ----
